@@ -26,6 +26,8 @@ def main():
             return mod.replay(data)
         run = Run(a.pid, tier_from_env(a.tier), seed_from_env())
         try:
+            from .common import settings_probe
+            settings_probe(run)
             return mod.run(run)
         except InfraError:
             raise
